@@ -43,6 +43,7 @@ def chi_case(draw):
     m = min(draw(st.sampled_from([3, 4, 2, 6, 5, 1])), n - 2)
     zf = draw(st.sampled_from([0.2, 0.0, 0.4]))
     return dict(n=n, m=max(1, m), seed=draw(st.integers(0, 10 ** 6)), zf=zf, bscale=draw(st.sampled_from([1.0, 1e3, 1e-3])),
+                order=list(draw(st.permutations(['covar', 'acoeff', 'var', 'chi2', 'yfit', 'dof']))),
                 basis=draw(st.sampled_from(['rawpoly', 'poly', 'random'])))
 
 
@@ -74,6 +75,9 @@ def chi_body(case):
     if cond > 1e3:
         note_label('cond>1e3')
     out = call(computechi2, b.copy(), sq.copy(), A.copy())
+    # the attributes are lazy: whatever order they are first read in, they must describe the same solution
+    for name in case.get('order', []):
+        call(getattr, out, name, what='computechi2.' + name)
     ref = np.linalg.lstsq(Aw, b * sq, rcond=None)[0]
     cov = np.linalg.inv(Aw.T.dot(Aw))
     with judge('computechi2'):
@@ -223,10 +227,14 @@ def hmf_solve_body(case):
     K = case['K']
     eps = case['epsilon']
     outs = []
+    objs = []
     for state in (case['state1'], case['state2']):
         s1, i1 = sp.copy(), iv.copy()
-        np.random.seed(state)            # a different global RNG state before each run
-        h = HMF(s1, i1, K=K, n_iter=case['n_iter'], seed=case['hseed'], nonnegative=case['nonnegative'], epsilon=eps)
+        np.random.seed(state)            # a different global RNG state before each construction ...
+        objs.append((HMF(s1, i1, K=K, n_iter=case['n_iter'], seed=case['hseed'], nonnegative=case['nonnegative'], epsilon=eps), s1, i1, state))
+    for h, s1, i1, state in objs:
+        np.random.seed(state + 17)       # ... and before each solve (both objects exist before the first solve)
+        np.random.random_sample(3)
         out = call(h.solve)
         outs.append((out, h, s1, i1))
     with judge('hmf-solve'):
